@@ -604,7 +604,14 @@ def run_once(sc, log, res, route, text, csv, fs_faults, actor, exec_faults, libr
             import builtins
             raise getattr(builtins, f["exc"])("injected " + f["exc"])
 
-    mon = ExecMonitor(log, on_enter=on_enter)
+    prop = sc.get("prop", "C13")
+
+    def runaway(key, depth):
+        res.violate(prop + ".runaway", prop + ".runaway unbounded-nesting",
+                    "execute nesting reached %d in a model of %d commands (command %s)"
+                    % (depth, len(model["cmds"]), key))
+
+    mon = ExecMonitor(log, on_enter=on_enter, nesting_cap=len(model["cmds"]) + 3, on_runaway=runaway)
     out = {"outcome": "ok", "exc": None, "exit_code": None, "fs": fs, "monitor": mon}
     log.emit("route", route=route)
     with fs, StdCapture(log) as cap:
@@ -623,7 +630,9 @@ def run_once(sc, log, res, route, text, csv, fs_faults, actor, exec_faults, libr
                 mon.install(_all_command_classes())
                 main.main(args=cli_args or ["eems-csv", MODEL_PATH], standalone_mode=False)
         except SimAbort:
-            raise
+            out["outcome"] = "abort"
+            out["reject_seq"] = log.seq
+            log.emit("pipeline-abort")
         except SystemExit as exc:
             out["outcome"] = "exit"
             out["exit_code"] = exc.code
@@ -751,6 +760,8 @@ def _is_mpilot(exc):
 
 def _judge12(sc, res, log, out, fault, label, paths, route):
     fs = out["fs"]
+    if out["outcome"] == "abort":
+        return
     if not fault:
         if out["outcome"] != "ok":
             res.violate("C12.accept", _sig12("accept well-formed-model-rejected", None, out["exc"]),
@@ -774,6 +785,8 @@ def _judge12(sc, res, log, out, fault, label, paths, route):
 
 def _judge12_cli(sc, res, log, lib_out, out, fault, label, paths, start):
     fs = out["fs"]
+    if out["outcome"] == "abort":
+        return
     if not fault:
         if out["outcome"] != "ok":
             res.violate("C12.accept", _sig12("accept cli-rejected-well-formed-model", None, out["exc"]),
@@ -925,6 +938,8 @@ def _fault_summary(faults, extra):
 def _classify(out, MPilotError):
     if out["outcome"] == "ok":
         return "success"
+    if out["outcome"] == "abort":
+        return "abort"
     if out["outcome"] == "exit":
         return "exit"
     exc = out["exc"]
@@ -937,6 +952,8 @@ def _classify(out, MPilotError):
 
 def _judge13_cli(sc, res, lib_out, lib_kind, out, faults, extra, MPilotError):
     kind = _classify(out, MPilotError)
+    if kind == "abort" or lib_kind == "abort":
+        return
     err = out["cap"].err.getvalue()
     sout = out["cap"].out.getvalue()
     summary = _fault_summary(faults, extra)
